@@ -124,11 +124,7 @@ func verifyUnit(env *Env, key string, fn *ssa.Function, opts UnitOpts) (u *Unit)
 		x.bindResult(rvars, fn, r.val)
 		ce := &cenv{x: x, st: r.st, old: fr.old, vars: rvars}
 		for _, cl := range con.Ensures {
-			desc := cl.Src
-			if cl.Name != "" {
-				desc = cl.Name
-			}
-			x.assert(r.st, "ensures", desc, ce.evalBool(cl.Expr), fn.Pos(), cl)
+			x.assertClause(r.st, "ensures", "", ce, cl, fn.Pos())
 		}
 		if con.HasModifies {
 			// copy-in cells not listed in modifies must be unchanged
